@@ -131,6 +131,21 @@ def check_wall(acc, pendulum, z, f, entries=ENTRY, recv=None):
     tzobj = _tz(pendulum, z)
     if recv is None:
         recv = _receivers(pendulum, z, tzobj)
+    if "set" in entries:
+        # set(..., tz=<another zone>) from a receiver in z: the fields are read in the TARGET zone only - whatever z does
+        # with that wall time (skipped, repeated) must not leak into the result (UTC: every wall time exists once)
+        y, mo, d, h, mi, s_, us = f
+        for fold in (0, 1):
+            acc.c["evaluations"] += 1
+            acc.c["transitions"] += 1
+            try:
+                r = recv[fold].set(year=y, month=mo, day=d, hour=h, minute=mi, second=s_, microsecond=us, tz=pendulum.UTC)
+                got = [list(obs.fields(r)), obs.offset_s(r), r.timezone_name]
+            except Exception as e:  # noqa: BLE001
+                got = f"raises {type(e).__name__}"
+            if got != [list(f), 0, "UTC"]:
+                acc.mismatch("set(tz=other-zone)", "fields-read-in-target-zone",
+                             {"kind": "wall", "z": z, "f": list(f), "fold": fold, "raise": False, "entry": "set"}, got, [list(f), 0, "UTC"])
     for fold in (0, 1):
         kind, inst, ef, eo = _expect(z, f, fold)
         if inst is None:
